@@ -73,11 +73,13 @@ def parse_entity(entity, model_name):
     :return:
     """
     gf = []
+    gf_type = "continuous"
     event_poster = []
 
     if "gf" in entity.keys(): # Graphical Function
 
         gf_ = entity["gf"]
+        gf_type = gf_.get("@type", "continuous")  # XMILE: continuous (default), extrapolate, discrete
         ypoints = [float(x) for x in gf_["ypts"].split(",")]
         xpoints = []
         if not "xpts" in gf_.keys():
@@ -147,6 +149,7 @@ def parse_entity(entity, model_name):
         "outflow": outflows,
         "doc": doc,
         "gf": gf,
+        "gf_type": gf_type,
         "event_poster": event_poster,
         "dimensions": dimensions,
         "labels":labels
